@@ -762,7 +762,8 @@ class StrandEndToEnd(EnumContract):
              "categories (missing ones anywhere) or <= 3 items, <= 25 respondents with fractional weights, up to 3 random "
              "subtotals / differences (multi-term, stale, overlapping), hide / prune / explicit order; seeded sample")
     clauses = ("strand-counts", "strand-bases", "strand-proportions", "strand-stderr", "strand-population",
-               "strand-subtotals", "strand-visibility", "strand-labels", "strand-ranges", "strand-exception", "ca-stack")
+               "strand-subtotals", "strand-visibility", "strand-labels", "strand-ranges", "strand-exception", "ca-stack",
+               "ca-slice")
 
     def cases(self, cfg, seed, thorough):
         rnd = random.Random(7000 + seed)
@@ -783,6 +784,28 @@ class StrandEndToEnd(EnumContract):
             if len(parts) != d["n"] or any(type(p).__name__ != "_Strand" for p in parts):
                 return ["ca-stack"]
             cat = dict(kind="CAT", name=d["name"], cats=d["cats"])
+            # the same response read on its own: one items x categories slice (array rows)
+            try:
+                import numpy as np
+
+                sl = Cube(tabulate_ca(d, rs, weighted), population=1000).partitions[0]
+                V = valid_elems(cat)
+                if V and type(sl).__name__ == "_Slice":
+                    W = np.array([[wsum(rs, lambda r, i=i, j=j: r["a"][0][i] == j) for j in V] for i in range(d["n"])])
+                    U = np.array([[wsum(rs, lambda r, i=i, j=j: r["a"][0][i] == j, False) for j in V] for i in range(d["n"])])
+                    valid_w = W.sum(axis=1, keepdims=True)
+                    with np.errstate(all="ignore"):
+                        ok = (close(sl.counts, W) and close(sl.unweighted_counts, U)
+                              and close(sl.row_weighted_bases, np.broadcast_to(valid_w, W.shape))
+                              and close(sl.row_proportions, W / valid_w) and close(sl.table_proportions, W / valid_w)
+                              and close(sl.rows_margin, valid_w[:, 0]) and close(sl.column_weighted_bases, W)
+                              and close(sl.rows_base, U.sum(axis=1)))
+                    if not ok:
+                        bad.add("ca-slice")
+                elif V:
+                    bad.add("ca-slice")
+            except Exception:
+                bad.add("ca-slice")
             for k, p in enumerate(parts):
                 sub = [dict(a=[r["a"][0][k]], w=r["w"]) for r in rs]
                 for b in self._check_strand(p, cat, sub, weighted, tr):
